@@ -12,7 +12,8 @@ EXTENDS Integers, Sequences, FiniteSets, TLC, Json, Exact
 CONSTANTS EMIT,
           Dev,      \* "none" | "no_half_logvar" | "var_not_inverse"
           Shapes,   \* set of shapes, coded 10 * n_samples + n_outputs (cfg files cannot hold tuples)
-          Pats      \* 0: every entry chosen freely;  > 0: number of patterns for shapes with more than FreeMax entries
+          Pats,     \* 0: every entry chosen freely;  > 0: number of patterns for shapes with more than FreeMax entries
+          Wide      \* BOOLEAN: log-variances over the whole legal range of the soft bounds, (-20, 5)
 FreeMax == 2
 
 VARIABLES stage, shape, ent    \* ent : Seq of [m, y, j] (row-major entries)
@@ -20,7 +21,10 @@ vars == <<stage, shape, ent>>
 
 Ms == << Zero, Q(1, 2), I(2) >>          \* predicted means
 Ys == << I(-1), Q(1, 2), I(3) >>         \* targets
-Js == << -2, -1, 0, 1, 3 >>              \* log-variance = j * LN2
+(* log-variance = j * LN2.  Wide: -21 LN2 = -14.56 and -20 LN2 = -13.86 lie deep in the range the learned lower  *)
+(* soft bound allows (min_log_var in (-20, 0)); the precision 2^21 is still exact.                                *)
+(* (generation only: the order invariants below multiply by the enclosure of LN2 and would leave 32 bits)        *)
+Js == IF Wide THEN << -21, -20, -2, 0, 2 >> ELSE << -2, -1, 0, 1, 3 >>
 
 Pow2(j) == LET RECURSIVE P(_)
                P(t) == IF t = 0 THEN 1 ELSE 2 * P(t - 1)
